@@ -74,7 +74,7 @@ extern ssize_t mpt_queue_push(MPT_STRUCT(encode_queue) *qu, size_t len, const vo
 	}
 	/* encode in upper part */
 	else if ((done = qu->_state.done) >= (low = qu->data.max - high)) {
-		vec.iov_base = dest + (done - low);
+		vec.iov_base = dest;
 		vec.iov_len  = high;
 		qu->_state.done -= low;
 		push = qu->_enc(&qu->_state, &vec, len ? &from : 0);
